@@ -27,6 +27,7 @@ import (
 	"github.com/ava-labs/hypersdk/internal/validitywindow/validitywindowtest"
 	"github.com/ava-labs/hypersdk/internal/verifh"
 	"github.com/ava-labs/hypersdk/internal/workers"
+	"github.com/ava-labs/hypersdk/state"
 	"github.com/ava-labs/hypersdk/state/balance"
 	"github.com/ava-labs/hypersdk/state/metadata"
 )
@@ -65,15 +66,15 @@ func TestVerifC11(t *testing.T) {
 	}
 }
 
-
 var (
-	c11MM      = metadata.NewDefaultManager()
-	c11BH      = balance.NewPrefixBalanceHandler([]byte{metadata.DefaultMinimumPrefix})
-	c11Sponsor = codec.Address{1, 2, 3}
-	c11HKey    = chain.HeightKey(c11MM.HeightPrefix())
-	c11TKey    = chain.TimestampKey(c11MM.TimestampPrefix())
-	c11FKey    = chain.FeeKey(c11MM.FeePrefix())
-	errC11Mock = errors.New("mock replay")
+	c11MM       = metadata.NewDefaultManager()
+	c11BH       = balance.NewPrefixBalanceHandler([]byte{metadata.DefaultMinimumPrefix})
+	c11Sponsor  = codec.Address{1, 2, 3}
+	c11HKey     = chain.HeightKey(c11MM.HeightPrefix())
+	c11TKey     = chain.TimestampKey(c11MM.TimestampPrefix())
+	c11FKey     = chain.FeeKey(c11MM.FeePrefix())
+	errC11Mock  = errors.New("mock replay")
+	errC11Panic = errors.New("panic")
 )
 
 type c11RuleFactory struct {
@@ -108,15 +109,16 @@ type c11Hdr struct {
 }
 
 type c11State struct {
-	r       *verifh.Run
-	live    bool
-	t0      int64
-	rf      *c11RuleFactory
-	view    merkledb.View
-	hdr     c11Hdr
-	pid     ids.ID
-	depth   int
-	seqKind string
+	r        *verifh.Run
+	live     bool
+	t0       int64
+	rf       *c11RuleFactory
+	view     merkledb.View
+	hdr      c11Hdr
+	pid      ids.ID
+	depth    int
+	seqKind  string
+	feeShort bool
 }
 
 func c11ParseI(s string) (int64, bool) {
@@ -185,7 +187,7 @@ func (s *c11State) seq(l string, f []string) {
 	case f[2] == "syn" && len(f) == 11:
 		hraw, hp, ok1 := c11Raw(f[8])
 		traw, tp, ok2 := c11Raw(f[9])
-		if !ok1 || !ok2 || (f[10] != "x" && f[10] != "e") {
+		if !ok1 || !ok2 || (f[10] != "x" && f[10] != "e" && f[10] != "s") {
 			bad()
 			return
 		}
@@ -204,6 +206,9 @@ func (s *c11State) seq(l string, f []string) {
 		if f[10] == "e" {
 			put(c11FKey, []byte{})
 		}
+		if f[10] == "s" { // truncated fee-manager state: fees.Manager.ComputeNext panics
+			put(c11FKey, []byte{1, 2, 3})
+		}
 		put(c11BH.BalanceKey(c11Sponsor), binary.BigEndian.AppendUint64(nil, 1<<62))
 		s.view, s.pid = db, ids.Empty
 		s.hdr = c11Hdr{}
@@ -215,6 +220,7 @@ func (s *c11State) seq(l string, f []string) {
 		return
 	}
 	s.rf, s.live, s.depth, s.seqKind = rf, true, 0, f[2]
+	s.feeShort = f[2] == "syn" && f[10] == "s"
 	// the clock is stamped as late as possible and written into the emitted line
 	s.t0 = time.Now().UnixMilli()
 	f[1] = strconv.FormatInt(s.t0, 10)
@@ -231,7 +237,7 @@ func (s *c11State) execBlock(l string, f []string) {
 	v, okv := c11ParseI(f[2][1:])
 	txk, rk, rp := f[3], f[4], f[5]
 	if err != nil || !okv || (f[2][0] != 'a' && f[2][0] != 'n') ||
-		!strings.Contains("0vis", txk) || len(txk) != 1 || (rk != "p" && rk != "r") || (rp != "y" && rp != "n") {
+		!strings.Contains("0visVw", txk) || len(txk) != 1 || (rk != "p" && rk != "r") || (rp != "y" && rp != "n" && rp != "f") {
 		r.Emit(l, "bad-op")
 		return
 	}
@@ -260,11 +266,32 @@ func (s *c11State) execBlock(l string, f []string) {
 		}
 		auth := chaintest.NewDummyTestAuth()
 		auth.ShouldErr = txk == "s"
-		tx, err := chain.NewTransaction(chain.Base{Timestamp: txTs, ChainID: rules.ChainID, MaxFee: 1 << 40}, []chain.Action{}, auth)
+		actions := []chain.Action{}
+		if txk == "w" {
+			// a transaction that declares the height and timestamp metadata keys with full
+			// permissions and overwrites them; writeBlockContext runs afterwards
+			actions = append(actions, &chaintest.TestAction{
+				NumComputeUnits:              1,
+				SpecifiedStateKeys:           []string{string(c11HKey), string(c11TKey)},
+				SpecifiedStateKeyPermissions: []state.Permissions{state.All, state.All},
+				WriteKeys:                    [][]byte{c11HKey, c11TKey},
+				WriteValues:                  [][]byte{binary.BigEndian.AppendUint64(nil, 999), binary.BigEndian.AppendUint64(nil, 12345)},
+				Start:                        -1,
+				End:                          -1,
+			})
+		}
+		tx, err := chain.NewTransaction(chain.Base{Timestamp: txTs, ChainID: rules.ChainID, MaxFee: 1 << 40}, actions, auth)
 		if err != nil {
 			panic(err)
 		}
 		txs = []*chain.Transaction{tx}
+		if txk == "V" { // a second valid transaction
+			tx2, err := chain.NewTransaction(chain.Base{Timestamp: txTs + 1000, ChainID: rules.ChainID, MaxFee: 1 << 40}, []chain.Action{}, chaintest.NewDummyTestAuth())
+			if err != nil {
+				panic(err)
+			}
+			txs = append(txs, tx2)
+		}
 	}
 	parentRoot, err := s.view.GetMerkleRoot(ctx)
 	if err != nil {
@@ -279,7 +306,7 @@ func (s *c11State) execBlock(l string, f []string) {
 		panic(err)
 	}
 	vw := &validitywindowtest.MockTimeValidityWindow[*chain.Transaction]{}
-	if rp == "y" {
+	if rp == "y" || rp == "f" { // "f": the window would fail, but isNormalOp=false skips it
 		vw.OnVerifyExpiryReplayProtection = func(context.Context, validitywindow.ExecutionBlock[*chain.Transaction]) error {
 			return errC11Mock
 		}
@@ -298,7 +325,12 @@ func (s *c11State) execBlock(l string, f []string) {
 	}
 	ch := make(chan res, 1)
 	go func() {
-		out, err := p.Execute(ctx, s.view, eb, true)
+		defer func() {
+			if x := recover(); x != nil {
+				ch <- res{nil, fmt.Errorf("%w: %v", errC11Panic, x)}
+			}
+		}()
+		out, err := p.Execute(ctx, s.view, eb, rp != "f")
 		ch <- res{out, err}
 	}()
 	var out *chain.OutputBlock
@@ -334,10 +366,17 @@ func (s *c11State) execBlock(l string, f []string) {
 			{chain.ErrDuplicateTx, "replay"},
 			{chain.ErrStateRootMismatch, "root"},
 			{chaintest.ErrTestAuthVerify, "sigs"},
+			{errC11Panic, "panic"},
 		} {
 			if errors.Is(err, c.e) {
 				kind = c.n
 				break
+			}
+		}
+		if kind == "panic" {
+			kind = "panic:" + strings.ReplaceAll(err.Error(), " ", "_")
+			if strings.Contains(err.Error(), "slice bounds out of range") && s.feeShort {
+				kind = "fee-panic"
 			}
 		}
 		if kind == "other" && strings.Contains(err.Error(), "failed to execute txs") {
@@ -363,6 +402,13 @@ func (s *c11State) execBlock(l string, f []string) {
 	}
 	r.Emit(l, "ok "+hs+" "+tss)
 	r.Count("result:ok")
+	if txk == "w" {
+		if len(out.ExecutionResults.Results) == 1 && out.ExecutionResults.Results[0].Success {
+			r.Count("metadata-overwrite-tx:executed")
+		} else {
+			r.Count("metadata-overwrite-tx:failed")
+		}
+	}
 	r.Count("verified-at-depth:" + strconv.Itoa(min(s.depth, 9)))
 
 	// ---- oracle: the property's statement against the parent *block header* -------------
@@ -428,6 +474,10 @@ func (t c11Ts) String() string {
 
 func c11Generate(r *verifh.Run) []string {
 	be := func(v uint64) string { return verifh.Hex(binary.BigEndian.AppendUint64(nil, v)) }
+	// the future bound of the running code: `n<fb-1>` can never be too late (the real clock is
+	// >= T0), `n<fb+1500>` is too late unless the sequence has been running for 1.5 s
+	fb := chain.FutureBound.Milliseconds()
+	okMax, lateMin := fb-1, fb+1500
 	lines := []string{
 		// corpus: the known finding first — child of the real genesis, timestamp 750 (1970)
 		"seq 0 gen 100 750 0 100 750",
@@ -455,7 +505,22 @@ func c11Generate(r *verifh.Run) []string {
 		"exec 2 n-19250 0 p y",
 		"exec 2 n-19250 0 p n",
 		"exec 3 n5000 0 p n",
-		"exec 3 n300 0 p n",
+		fmt.Sprintf("exec 3 n%d 0 p n", lateMin),
+		fmt.Sprintf("exec 3 n%d 0 p n", okMax),
+		// two transactions; isNormalOp=false skips a failing replay check; a transaction that
+		// overwrites the height/timestamp metadata keys (the block context is written after it)
+		"seq 0 gen 100 750 0 100 750",
+		"exec 1 n-20000 V p n",
+		"exec 2 n-19000 0 p f",
+		"exec 3 n-18000 w p n",
+		"exec 4 n-17000 0 p n",
+		"exec 5 n-16901 w p n",
+		"exec 5 n-16900 w p f",
+		// truncated fee state in the parent: Go panics in ComputeNext
+		"seq 0 syn 100 750 0 100 750 " + be(0) + " " + be(0) + " s",
+		"exec 1 a750 0 p n",
+		"exec 1 a749 0 p n",
+		"exec 2 a750 0 p n",
 		// the repo's own unit-test parents
 		"seq 0 syn 100 750 0 100 750 " + be(0) + " " + be(0) + " e",
 		"exec 1 a750 0 p n",
@@ -555,6 +620,8 @@ func c11Generate(r *verifh.Run) []string {
 			}
 			if r.RNG.Chance(8) {
 				fee = "x"
+			} else if r.RNG.Chance(5) {
+				fee = "s"
 			}
 			lines = append(lines, fmt.Sprintf(head, "syn")+" "+hraw+" "+traw+" "+fee)
 		}
@@ -567,6 +634,10 @@ func c11Generate(r *verifh.Run) []string {
 				tx = "i"
 			case x < 44:
 				tx = "s"
+			case x < 52:
+				tx = "V"
+			case x < 58:
+				tx = "w"
 			}
 			g, e := g1, e1
 			if cur.v >= sw && !cur.rel || cur.rel {
@@ -586,11 +657,14 @@ func c11Generate(r *verifh.Run) []string {
 			case x < 70 && !cur.rel: // jump to the present
 				next = c11Ts{true, -60000 + int64(r.RNG.Intn(50000))}
 			case x < 78: // the future
-				next = c11Ts{true, 5000 + int64(r.RNG.Intn(100000))}
+				next = c11Ts{true, lateMin + int64(r.RNG.Intn(3000))}
+				if r.RNG.Chance(30) {
+					next.v = lateMin + int64(r.RNG.Intn(100000))
+				}
 				valid = false
 			case x < 84: // as far ahead as is certainly allowed
-				if cur.rel && cur.v+need <= 400 || !cur.rel {
-					next = c11Ts{true, int64(r.RNG.Intn(400))}
+				if cur.rel && cur.v+need <= okMax-300 || !cur.rel {
+					next = c11Ts{true, okMax - int64(r.RNG.Intn(300))}
 				}
 			case x < 90:
 				next.v = cur.v + e
@@ -599,8 +673,8 @@ func c11Generate(r *verifh.Run) []string {
 			default:
 				next = c11Ts{false, int64(r.RNG.Pick64())}
 			}
-			if next.rel && next.v > 400 && next.v < 5000 {
-				next.v = 400 // never within reach of the real clock's drift
+			if next.rel && next.v > okMax && next.v < lateMin {
+				next.v = okMax // never within reach of the real clock's drift
 			}
 			h := curH + 1
 			switch r.RNG.Intn(25) {
@@ -617,10 +691,12 @@ func c11Generate(r *verifh.Run) []string {
 			}
 			if r.RNG.Chance(5) {
 				rp = "y"
+			} else if r.RNG.Chance(5) {
+				rp = "f"
 			}
 			lines = append(lines, fmt.Sprintf("exec %d %s %s %s %s", h, next, tx, rk, rp))
 			// heuristic: assume it verified when it was meant to
-			if valid && h == curH+1 && rk == "p" && rp == "n" && (tx == "0" || tx == "v") &&
+			if valid && h == curH+1 && rk == "p" && rp != "y" && (tx == "0" || tx == "v" || tx == "V" || tx == "w") &&
 				(next.rel != cur.rel || next.v >= cur.v+need) {
 				cur, curH = next, h
 			}
